@@ -11,24 +11,31 @@ TEXT = {
 }
 
 def extend(history, step):
-    """Histories near a disagreeing one: the prefix up to and including the
-    disagreeing event, followed by clock jumps around every configured timeout
-    (a mis-armed timeout, a lost wake-up or a leaked object shows up once the
-    clock passes it), each followed by releasing every parked call."""
-    ops = history["ops"][:step + 1]
+    """Histories near a disagreeing one: for the disagreeing event and the next
+    few events that let a call run, the prefix up to and including that event,
+    followed by a clock jump to just before / just after each configured
+    timeout (a mis-armed timeout, a lost wake-up or a leaked object shows up
+    once the clock passes it), the release of every parked call, and a jump
+    past everything."""
+    all_ops = history["ops"]
     cfg = history["cfg"]
-    calls = sorted({o["c"] for o in ops if "c" in o})
-    nxt = (max(calls) + 1) if calls else 0
     out = []
-    jumps = set()
-    for k in ("update", "nowait", "pq", "busy", "idle", "worker"):
-        for d in (-1_000_000, 1_000_000):
-            jumps.add(cfg[k] + d)
-    for j in sorted(x for x in jumps if x > 0):
-        tail = [{"k": "tick", "c": nxt, "dt": j}]
-        tail += [{"k": "enter", "c": c, "dt": 1} for c in calls]
-        tail += [{"k": "tick", "c": nxt + 1, "dt": 3000_000_000_000}]
-        out.append({"cfg": cfg, "ops": ops + tail})
+    steps = [step] + [i for i in range(step + 1, min(len(all_ops), step + 40))
+                      if all_ops[i]["k"] in ("sync", "enter", "timer")][:9]
+    for n, st in enumerate(steps):
+        ops = all_ops[:st + 1]
+        calls = sorted({o["c"] for o in ops if "c" in o})
+        nxt = (max(calls) + 1) if calls else 0
+        jumps = set()
+        for k in ("update", "nowait", "pq", "busy", "idle", "worker"):
+            jumps.add(cfg[k] - 1_000_000)
+            if n == 0:
+                jumps.add(cfg[k] + 1_000_000)
+        for j in sorted(x for x in jumps if x > 0):
+            tail = [{"k": "tick", "c": nxt, "dt": j}]
+            tail += [{"k": "enter", "c": c, "dt": 1} for c in calls]
+            tail += [{"k": "tick", "c": nxt + 1, "dt": 3000_000_000_000}]
+            out.append({"cfg": cfg, "ops": ops + tail})
     return out
 
 
